@@ -15,6 +15,7 @@ import GluonModel.Spec.SeqSetSpec
 -- DIALECT: judge-c16-resolve judgeC16Resolve
 -- DIALECT: judge-c16-seqset-parse judgeC16SeqSetParse
 -- DIALECT: judge-c16-wire judgeC16Wire
+-- DIALECT: judge-c16-wire-stale judgeC16WireStale
 namespace Gluon.Driver.Resolve
 open Gluon Gluon.SeqSetSpec
 
@@ -197,6 +198,49 @@ def judgeC16Wire (args : List String) : String :=
             | .unparsable => "violation unparsable-implementation-output"
             | _ => "ok trivial-not-a-sequence-set")
         | some set => Resolve.judgeCore m view set ans
+    | _, _, _, _ => "violation unparsable-op"
+  | _ => "violation unparsable-op"
+
+/-- a wire-level observation on a STALE view (oracle `c16wire`, kinds STALE…): the session's view
+    `uids` still holds the messages with the sequence numbers `gone`, expunged by another session.
+    `<KIND> <uids of the view> <gone> <hex set text> => <OK|NO|BAD|LOST|PANIC> <sequence numbers|->`.
+    The set is read against the session's view.  RFC 3501 / RFC 2180 allow a server to answer NO, or
+    to leave out a message, only for messages that no longer exist. -/
+def judgeC16WireStale (args : List String) : String :=
+  match args with
+  | [kind, uids, gone, hex, "=>", status, seqs] =>
+    let uidMode := kind == "STALEUIDFETCH" || kind == "STALEUIDSTORE"
+    match Resolve.parseUids uids, Resolve.parseUids gone, Resolve.unhex hex, (Resolve.splitNE seqs ",").mapM String.toNat? with
+    | some view, some gone, some text, some ks =>
+      match Resolve.readSet text with
+      | none => if status == "PANIC" || status == "LOST" then "violation panic class=not-a-sequence-set" else "ok trivial-not-a-sequence-set"
+      | some set =>
+        let c := Resolve.cls set
+        if status == "PANIC" || status == "LOST" then s!"violation panic {c}" else
+        let wants : List (List Nat) :=
+          if uidMode then
+            let judged := set.filter fun it => !(SeqSetSpec.excludedUIDItem view it)
+            [Resolve.sortDedup ((SeqSetSpec.selectUID view judged).map (·.1)), Resolve.sortDedup ((SeqSetSpec.selectUID view set).map (·.1))]
+          else match SeqSetSpec.selectSeq view set with
+            | some sel => [Resolve.sortDedup (sel.map (·.1))]
+            | none => []
+        if wants.isEmpty then
+          (if status == "BAD" then "ok nontrivial-stale-rejected-beyond-view-count"
+           else s!"violation number-beyond-count-not-rejected {c} count={view.length} stale-view")
+        else if status == "BAD" then
+          (if uidMode && Resolve.bigNum set then "ok nontrivial-rejected-number-ge-2^32"
+           else s!"violation valid-set-rejected-on-stale-view {c} view-count={view.length} expunged-elsewhere={Resolve.showNats gone}")
+        else if status == "NO" then
+          (if wants.any fun w => w.any fun k => gone.contains k then "ok nontrivial-stale-NO-set-names-expunged-message"
+           else s!"violation unexpected-NO-instead-of-OK-or-BAD {c} stale-view")
+        else if status == "OK" then
+          let got := Resolve.sortDedup ks
+          if got.any fun k => k == 0 || k > view.length then s!"violation answer-names-wrong-message {c} stale-view got={Resolve.showNats got}"
+          else if wants.any fun w => got.all (fun k => w.contains k) && w.all (fun k => got.contains k || gone.contains k) then
+            let touches := wants.any fun w => w.any fun k => gone.any fun g => g ≤ k
+            (if touches then "ok nontrivial-stale-selected-relative-to-the-view" else "ok nontrivial-stale-selected-before-any-expunged")
+          else s!"violation selection-differs-from-rfc {c} stale-view want={Resolve.showNats (wants.headD [])} got={Resolve.showNats got}"
+        else "violation unparsable-implementation-output"
     | _, _, _, _ => "violation unparsable-op"
   | _ => "violation unparsable-op"
 
